@@ -26,7 +26,7 @@ INTERPOLATORS = ["lsq_poly", "spline", "lagrange", "krogh", "pchip", "hermite", 
 # Hypothesis strategy for the structure; large numeric payloads come from a drawn seed
 @st.composite
 def dataset_specs(draw, systems=None, max_nq=4, max_na=3, families=("power", "poly2", "poly3", "generic"),
-                  lattice=None, interpolators=("lsq_poly",), max_nt=5, keys_mode="auto", min_nv=5, max_nv=9,
+                  lattice=None, interpolators=("lsq_poly",), max_nt=5, keys_mode="auto", min_nv=4, max_nv=12,
                   t_min_zero=None, dt_range=(5.0, 400.0), ntv_range=(16, 41)):
     nv = draw(st.integers(min_nv, max_nv))
     nq = draw(st.integers(1, max_nq))
@@ -62,7 +62,7 @@ def dataset_specs(draw, systems=None, max_nq=4, max_na=3, families=("power", "po
     f1 = draw(st.floats(0.15, 0.35))
     weights_int = draw(st.booleans())
     cellmass = draw(st.floats(5.0, 1500.0))
-    nv_static = draw(st.integers(5, 10))
+    nv_static = draw(st.integers(4, 12))
     fmt = draw(st.sampled_from(["yaml", "json"]))
     key_seed = draw(st.integers(0, 10 ** 6))
     n_extra_keys = draw(st.integers(0, 4))
@@ -343,7 +343,7 @@ class Workdir:
 # ----------------------------------------------------------------------------------------------------
 # pressure range from the third-party qha package directly (trusted producer of P(T,V))
 
-def qha_pressure_range(ds, qha_settings):
+def qha_pressure_range(ds, qha_settings, cells=False):
     """(lo, hi) in GPa of the pressure range reachable at every temperature, or None if P(T,V) is not
     monotonic on the dense grid.  Uses qha.calculator.Calculator directly (no cij)."""
     import qha.calculator
@@ -361,23 +361,31 @@ def qha_pressure_range(ds, qha_settings):
     p = np.asarray(calc.p_tv_gpa)
     if not np.all(np.diff(p, axis=1) > 0):
         return None
+    if cells:
+        # (lo, hi, upper end of the first cell, lower end of the last cell) - each at its most restrictive temperature
+        return float(p[:, 0].max()), float(p[:, -1].min()), float(p[:, 1].max()), float(p[:, -2].min())
     return float(p[:, 0].max()), float(p[:, -1].min())
 
 
-def place_pressures(ds, base_settings=None):
-    """Choose P_MIN and DELTA_P inside the reachable range with a margin >= 10 % at both ends.
-    Returns the qha settings dict or None when the data set is unusable."""
+def place_pressures(ds, base_settings=None, edge=None):
+    """Choose P_MIN and DELTA_P inside the reachable range with a margin >= 10 % at both ends (edge=None), or with the
+    lowest / highest requested pressure inside the first / last cell of the P(T,V) table (edge='low' / 'high': still inside
+    the range at every temperature, 25-75 % into that cell).  Returns the qha settings dict or None when unusable."""
     s = ds.spec
     probe = ds.qha_settings(0.0, 1.0, base_settings)
-    rng_ = qha_pressure_range(ds, probe)
+    rng_ = qha_pressure_range(ds, probe, cells=True)
     if rng_ is None:
         return None
-    lo, hi = rng_
+    lo, hi, lo2, hi2 = rng_
     R = hi - lo
     if not (R > 1.0):
         return None
     p_min = lo + s["f0"] * R
     top = p_min + s["f1"] * R
+    if edge == "low" and lo2 > lo:
+        p_min = lo + (0.25 + 0.5 * s["f0"]) * (lo2 - lo)
+    if edge == "high" and hi2 < hi:
+        top = hi - (0.25 + 0.5 * s["f0"]) * (hi - hi2)
     delta_p = (top - p_min) / max(1, s["ntv"] - 1)
     p_min = float("%.6f" % p_min)
     delta_p = float("%.8f" % delta_p)
